@@ -29,6 +29,9 @@ class AsgGen:
             return ["ref", r.choice(VARS)]
         if x < 0.33:
             return ["ref", "nil"]
+        if x < 0.36:
+            # text that looks like program structure inside a string literal
+            return ["str", r.choice(["; ", "a;b;c", ";", ",", "x = 1", "a = 1; b", "(", "]", "? :", "not", " ", "", "1 + 2", "'", '"'])]
         if x < 0.9:
             return gen.num_lit(*r.choice(gen.NUM_SMALL + [(-2, 0), (-15, 1)]))
         return self.tg.leaf(r.choice("NBSL"))
